@@ -36,6 +36,7 @@ def run(ctx):
 
     r20_5(ctx)
     r20_6(ctx)
+    r20_7(ctx)
 
     # ---- R20.1 -----------------------------------------------------------------------------------------
     af = F.one('AnalyzerInformation::analyzeFile')
@@ -319,3 +320,32 @@ def r20_6(ctx, rid='R20.6'):
            ('AnalyzerInformation::reopen modifies the stored content before writing it back (%s at line %s): findings of a file whose results were taken from the cache exist only '
             'there, so what is dropped here is missing in every later run' % ((other[0].get('fn') or 'call'), other[0]['l']) if other else
             'AnalyzerInformation::reopen no longer cuts the stored content at the closing tag'), '%s:%s' % (ro['file'], (other[0]['l'] if other else ro['line'])))
+
+
+def r20_7(ctx):
+    """R20.7  no soft stop in the command-line tool: Settings::terminate() makes CppCheck::checkInternal leave through its early returns and its
+    TerminateException handler while the AnalyzerInformation object of the file is alive; the destructor of that object writes the closing tag, so a run
+    stopped this way leaves a complete-looking cache file (right key, few findings) that the next run accepts.  In the command-line tool an interruption is
+    a kill, which leaves a torn file that is rejected; therefore nothing in cli/ or lib/ may call Settings::terminate() other than the option parser (which
+    uses it for --help / --version before any analysis)."""
+    F = ctx.facts
+    ctx.rule('R20.7', 'Settings::terminate() is not called during analysis by the command-line tool')
+    ALLOWED = {'CmdLineParser::fillSettingsFromArgs': 'sets the flag when the option parser returns Result::Exit (--help, --version, --errorlist ...), before any file is analysed'}
+    callers = []
+    for f in F.all_fns():
+        if not f['file'].startswith(('cli/', 'lib/', 'frontend/')):
+            continue
+        for c in f['calls']:
+            if c['f'].split('(')[0] == 'Settings::terminate':
+                callers.append((f, c))
+    # the destructor really closes: keep the premise checked
+    dtor = [f for f in F.find('AnalyzerInformation::~AnalyzerInformation')]
+    closes = bool(dtor) and any(c['f'].startswith('AnalyzerInformation::close(') for c in dtor[0]['calls'])
+    ctx.counts['callers of Settings::terminate in cli/ and lib/'] = len(callers)
+    if not callers:
+        ctx.ob('R20.7', 'terminate-callers', True, 'nothing in cli/ and lib/ calls Settings::terminate()', 'lib/settings.h')
+    for f, c in callers:
+        ok = f['name'] in ALLOWED or not closes
+        ctx.ob('R20.7', 'terminate-caller:%s' % f['name'], ok, ('%s calls Settings::terminate(): %s' % (f['name'], ALLOWED.get(f['name'], 'the destructor does not close'))) if ok else
+               ('%s calls Settings::terminate() (line %s): a run stopped through this flag returns from checkInternal with the file\'s AnalyzerInformation alive, its destructor '
+                'writes </analyzerinfo>, and the next run accepts the partial cache file (right key, missing findings)' % (f['name'], c.get('l'))), '%s:%s' % (f['file'], c.get('l')))
